@@ -190,3 +190,24 @@ func (c *Keccak) Define(api frontend.API) error {
 	}
 	return nil
 }
+
+// KeccakR: the sponge gadget instantiated directly with a chosen number of rounds and domain byte
+// (same code path as NewKeccak256/NewSHA3_256, smaller permutation).
+type KeccakR struct {
+	In     []V
+	Out    []V
+	Rounds int
+	Domain int
+}
+
+func (c *KeccakR) Define(api frontend.API) error {
+	h := abstractor.Call1(api, keccak.KeccakGadget{InputSize: len(c.In), InputData: c.In, OutputSize: 256, Rounds: c.Rounds, BlockSize: 1088, RotationOffsets: keccak.R, RoundConstants: keccak.RC, Domain: c.Domain})
+	if len(h) != len(c.Out) {
+		api.AssertIsEqual(0, 1)
+		return nil
+	}
+	for i := range h {
+		api.AssertIsEqual(h[i], c.Out[i])
+	}
+	return nil
+}
